@@ -3,7 +3,7 @@
    ForestStep.v, ForestRefl.v.  Model: Heap/Forest.v (transliteration of basenode.py / node.py). *)
 From Coq Require Import Sorting.Permutation.
 From BT Require Import Base.Prelude Base.Str Heap.Forest Heap.ForestWF Heap.ForestOps
-     Heap.ForestStep Heap.ForestRefl Spec.PForest.
+     Heap.ForestStep Heap.ForestRefl Spec.PForest Corr.ForestCorr Corr.ForestCorrProofs.
 
 (* the forest invariant: a node is listed exactly once, by exactly its parent; listed children
    name that parent; links stay among the live nodes; no node is its own ancestor (ghost rank) *)
@@ -92,6 +92,17 @@ Theorem C01_wf_b_of_reachable : forall cfg n names seps ops,
   wf_b (run cfg (init n names seps) ops) = true.
 Proof. intros. apply WF_wf_b, run_WF, WF_init. Qed.
 Print Assumptions C01_wf_b_of_reachable.
+
+(* constructor calls Node(name, parent=..., children=...) are two assignments and preserve the
+   invariant as well, whatever their outcome *)
+Theorem C01_constructor_preserves_WF : forall cfg ops s, WF s -> WF (crun cfg s ops).
+Proof. exact crun_WF. Qed.
+Print Assumptions C01_constructor_preserves_WF.
+
+Theorem C01_model_csteps_satisfy_prop : forall cfg s c, WF s ->
+  let r := cstep cfg s c in prop_C01_cstep cfg s c (fst r) (is_ok (snd r)) = true.
+Proof. exact model_cstep_C01. Qed.
+Print Assumptions C01_model_csteps_satisfy_prop.
 
 (* non-vacuity: a concrete history on 5 nodes reaches a state with a 3-child parent, from which an
    accepted re-parenting, a rejected loop and an accepted children assignment stealing two children
